@@ -75,6 +75,18 @@ CHECKS = {
             "Candidate break points are read from the sampler's own tables only to make the measurement exact; "
             "the verdict comes from black-box evaluations. TABLE: law implied by its tables plus scripted batch. "
             "numpy's global RNG is seeded inside each case (the inversion sampler falls back on it)."),
+    "C04": ("3/C04",
+            "Hypothesis-generated chains with a pre-declared Levy-Khintchine representation; oracle = quadrature "
+            "of x(1-c(x))nu(x) and x^2 nu(x) of the model's own density over the truncation interval",
+            "Exploration: for generated 1-d chains (all families incl. infinite variation, identity and log "
+            "processes, every grid constructor, 0..2 refinements) declared in each valid representation in turn, "
+            "process_drift + sum x_k q_k is compared with model.drift + a_decl + compensated first moment of the "
+            "truncated measure (quadrature); the added diffusion variance must be the central-cell second moment "
+            "iff infinite variation and exactly 0 otherwise; the jump variance must lie within the per-cell "
+            "oscillation bound. For copula chains (d=2,3) every margin's mean is checked the same way with the "
+            "independently computed box-truncation leak of the other coordinates added to the tolerance.",
+            "Rates are those verified by C01; a_decl is read from the model after set_representation (the "
+            "conversions on the untruncated measure are C10's subject)."),
 }
 
 NOT_YET = "check not built yet in this session; will be claimed when its module exists"
